@@ -30,7 +30,7 @@ def valid(seq):
     return True
 
 
-FAIL_OPS = ["S", "X1", "X4", "X11"]  # Xk: an iteration in which the user's likelihood raises at its k-th evaluation (if it gets that far)
+FAIL_OPS = ["S", "X1", "X4", "X11", "K2", "K9"]  # Xk: an iteration in which the user's likelihood raises at its k-th evaluation (if it gets that far)
 
 
 def sequences(depth, first=None, ops=None):
@@ -39,7 +39,7 @@ def sequences(depth, first=None, ops=None):
             continue
         if not valid(seq):
             continue
-        if "S" not in seq and not any(o[0] in "XRPD" for o in seq):
+        if "S" not in seq and not any(o[0] in "XKRPD" for o in seq):
             continue
         # a load must be followed by at least one iteration somewhere for anything to be observable
         yield seq
@@ -103,12 +103,13 @@ class Session:
                     self.opno += 1
                     if op == "S":
                         p.sampler.sample()
-                    elif op[0] == "X":
+                    elif op[0] in "XK":  # Xk: an exception, Kk: a KeyboardInterrupt at the k-th likelihood evaluation of the iteration
                         before = self._history_digest()
                         p.ll.fail_countdown = int(op[1:])
+                        p.ll.fail_kind = "kbd" if op[0] == "K" else "exc"
                         try:
                             p.sampler.sample()
-                        except pl.UserFailure:
+                        except (pl.UserFailure, pl.UserInterrupt):
                             self.failures += 1
                             p.in_iter = False
                             if self._history_digest() != before:
